@@ -49,13 +49,15 @@ pub fn all() -> Vec<Prop> {
                 "no cancellation (the property excludes it)",
                 "sampling, not enumeration: a clean batch is evidence, not proof",
             ],
-            reach_quick: &["e2.contended_lock", "e2.concurrent_same_key", "e2.joinall"],
+            reach_quick: &["e2.contended_lock", "e2.concurrent_same_key", "e2.joinall", "e2.http_files", "e2.pipeline"],
             reach_thorough: &[
                 "e2.contended_lock",
                 "e2.concurrent_same_key",
                 "e2.joinall",
                 "e2.joinall_large",
                 "e2.remembered_failure_reused",
+                "e2.http_files",
+                "e2.pipeline",
             ],
             watchdog_s: 60,
         },
@@ -76,7 +78,7 @@ pub fn all() -> Vec<Prop> {
                 "equality oracle applies to inputs whose lines are all shorter than 79 KiB",
                 "HTTP bodies never contain empty chunks (hyper's decoder does not yield them)",
             ],
-            reach_quick: &["e1.trickle", "e1.split_in_crlf", "e1.async_path", "e1.grow_20k"],
+            reach_quick: &["e1.trickle", "e1.split_in_crlf", "e1.async_path", "e1.grow_20k", "e1.all_single_splits"],
             reach_thorough: &[
                 "e1.trickle",
                 "e1.split_in_crlf",
@@ -84,6 +86,7 @@ pub fn all() -> Vec<Prop> {
                 "e1.grow_20k",
                 "e1.grow_160k",
                 "e1.unterminated_last_line",
+                "e1.all_single_splits",
             ],
             watchdog_s: 120,
         },
